@@ -21,6 +21,7 @@ CONSTANTS Site,        \* "config" | "field" | "codec"
           Walk,        \* "recursive" (what the documentation promises) | "direct" (deviant: direct subclasses only)
           Shared,      \* TRUE: the Discriminator OBJECT of the site is one project-wide constant that an UNRELATED class (Oth) also uses as
                        \* its Config.discriminator -- defining (compiling) Oth at any point of the history changes nothing for the site
+          Tagger,      \* "none" | "one" | "two": the discriminator carries a variant_tagger_fn returning one tag / a list of two tags
           Nested       \* TRUE: a variant N (tag "n") that declares its OWN class-level discriminator on field "kind" (two dispatch levels)
 VARIABLES defined, registry, registry2, decoder, hist, last
 \* Site = "pair": ONE field  f: Tuple[Annotated[R, D], Annotated[R2, D]]  with two EQUAL discriminators over two
@@ -30,6 +31,7 @@ VARIABLES defined, registry, registry2, decoder, hist, last
 DOpts == (IF WithField THEN << <<"field", "type">> >> ELSE <<>>)
          \o << <<"include_subtypes", TRUE>> >> \o (IF Supertypes THEN << <<"include_supertypes", TRUE>> >> ELSE <<>>)
          \o (IF Shared THEN << <<"shared", "D1">> >> ELSE <<>>)
+         \o (IF Tagger # "none" THEN << <<"tagger", Tagger>> >> ELSE <<>>)
 
 CV(t) == << <<"classvars", << <<"type", S(t)>> >> >> >>
 RootFields == << <<"v", <<"int">>, <<"req">>, <<>> >> >>
@@ -62,9 +64,10 @@ HolderT == IF Site = "pair"
 Body(t) == << <<S("v"), I(0)>>, <<S("x"), I(1)>>, <<S("y"), I(2)>>, <<S("z"), I(3)>>, <<S("w"), I(4)>> >>
            \o (IF t = "" THEN <<>> ELSE << <<S("type"), S(t)>> >>)
 NBody(t, k) == Body(t) \o (IF k = "" THEN <<>> ELSE << <<S("kind"), S(k)>> >>)
+TaggerInputs == { Dct(Body(t)) : t \in {"t_A", "u_A", "t_B", "t_A1", "u_A1", "t_X", "t_R", "a", "zz", ""} }
 NestedInputs == { Dct(NBody("n", "k1")), Dct(NBody("n", "k2")), Dct(NBody("n", "")), Dct(NBody("n", "zz")), Dct(NBody("a", "")), Dct(NBody("", "k1")) }
 PairInputs == { L(<<Dct(Body(t1)), Dct(Body(t2))>>) : t1 \in {"a", "b", "c", "zz"}, t2 \in {"a", "b", "c", "zz"} }
-Inputs == IF Nested THEN NestedInputs ELSE IF Site = "pair" THEN PairInputs ELSE IF WithField
+Inputs == IF Tagger # "none" THEN TaggerInputs ELSE IF Nested THEN NestedInputs ELSE IF Site = "pair" THEN PairInputs ELSE IF WithField
           THEN (IF Faults
                 THEN \* the tag names an existing variant whose OWN required key is absent / ill-typed: the variant's MissingField /
                      \* InvalidFieldValue must surface (not "no such variant") -- whether the registry is cold or warm (C05)
@@ -92,7 +95,7 @@ RegLookup(reg, t) == IF \E p \in reg : p[1] = t THEN (CHOOSE p \in reg : p[1] = 
 WalkSubsOf(rn) == IF Walk = "recursive" THEN SubsDFS(defined, rn) ELSE SelectSeq(defined, LAMBDA C : ParentName(C) = rn)
 WalkSubs == WalkSubsOf("R")
 WalkEligible == WalkSubs \o (IF Supertypes THEN <<Root>> ELSE <<>>)
-RefilledOf(el) == { <<OwnTag(el[i], "type"), el[i][2]>> : i \in { k \in DOMAIN el : OwnTag(el[k], "type") # <<"#notag">> } }
+RefilledOf(el) == UNION { { <<t, el[i][2]>> : t \in TagsOf(el[i], DOpts) } : i \in DOMAIN el }
 Refilled == RefilledOf(WalkEligible)
 Refilled2 == RefilledOf(WalkSubsOf("R2"))
 AllDefined == <<Root, Root2>> \o defined
@@ -167,9 +170,9 @@ Next == /\ Len(hist) < MaxLen
 \* the lazy registry implements the abstract choice under every interleaving (VariantChoice)
 VariantChoice == last[1] = "deser" => last[2] = last[3]
 \* the registry only ever maps a tag to an eligible defined class carrying that tag (RegistrySound)
-RegistrySound == \A p \in registry \cup registry2 : IsDefined(AllDefined, p[2]) /\ OwnTag(ByName(AllDefined, p[2]), "type") = p[1]
+RegistrySound == \A p \in registry \cup registry2 : IsDefined(AllDefined, p[2]) /\ p[1] \in TagsOf(ByName(AllDefined, p[2]), DOpts)
 \* a class without its own tag is never chosen by tag
-NoInheritedTag == (WithField /\ Site # "pair" /\ last[1] = "deser" /\ IsOk(last[3])) =>
+NoInheritedTag == (WithField /\ Tagger = "none" /\ Site # "pair" /\ last[1] = "deser" /\ IsOk(last[3])) =>
                     LET o == IF Site = "field" THEN last[3][2][3][1] ELSE last[3][2] IN o[2] # "X"
 
 EmitInv == (Len(hist) = MaxLen \/ ~ENABLED Next) => PrintT(ToJson(<<"beh", hist>>))
